@@ -264,6 +264,25 @@ type fataler interface {
 func violation(t fataler, prop, unit string, sc any, format string, args ...any) {
 	t.Helper()
 	detail := fmt.Sprintf(format, args...)
+	// A failure seen while this process was being held up (machine frozen for a snapshot, cores heavily oversubscribed: the
+	// stall monitor below) may be the harness's own schedule - sleeps, barriers, placements - having come apart. It is executed
+	// once more through the unit's replayer; only a failure that repeats is reported, the other is counted as discarded.
+	time.Sleep(15 * time.Millisecond)
+	if st := recentStall(3 * time.Minute); st > 500*time.Millisecond && os.Getenv("VERIF_REPLAY") == "" {
+		if f := replayers[unit]; f != nil {
+			if raw, err := json.Marshal(sc); err == nil {
+				d := f(raw)
+				if d != "" && recentStall(30*time.Second) > 200*time.Millisecond {
+					d = f(raw) // (still being held up while it was executed again)
+				}
+				if d == "" {
+					countDiscarded(prop)
+					fmt.Fprintf(os.Stderr, "DISCARDED (process held up for %v in the last 3 min; not repeated on re-execution): %s\n", st, detail)
+					return
+				}
+			}
+		}
+	}
 	writeReplay(os.Getenv("VERIF_REPLAY_OUT"), prop, unit, detail, true, sc)
 	t.Fatalf("property %s violated: %s", prop, detail)
 }
@@ -394,12 +413,73 @@ func within(d time.Duration, f func()) (ok bool, panicVal any) {
 	case p := <-done:
 		return true, p
 	case <-time.After(d):
-		return false, nil
 	}
+	// the bound is meant in time the process could use: if it was held up meanwhile (machine frozen for a snapshot, cores
+	// heavily oversubscribed) the call gets that time back, threefold, before it is declared stuck
+	time.Sleep(15 * time.Millisecond)
+	if extra := 3 * recentStall(d+time.Minute); extra > 0 {
+		select {
+		case p := <-done:
+			return true, p
+		case <-time.After(extra):
+		}
+	}
+	return false, nil
+}
+
+// ---- stall monitor: wall-clock bounds in the harness are bounds on time the process could actually use ----
+// A goroutine sleeps 5 ms at a time; a sleep that takes more than 40 ms means the process (or the whole machine) was held up
+// for that long. deadlinePassed extends a deadline by three times what was lost in the last two minutes: a library that
+// really hangs is still reported (the monitor runs fine then), a frozen or starved process is not mistaken for one.
+
+type stallRec struct {
+	at time.Time
+	d  time.Duration
+}
+
+var (
+	stallMu  sync.Mutex
+	stallLog []stallRec
+)
+
+func startStallMonitor() {
+	go func() {
+		for {
+			t0 := time.Now()
+			time.Sleep(5 * time.Millisecond)
+			if g := time.Since(t0); g > 40*time.Millisecond {
+				stallMu.Lock()
+				stallLog = append(stallLog, stallRec{time.Now(), g})
+				if len(stallLog) > 4096 {
+					stallLog = stallLog[len(stallLog)-2048:]
+				}
+				stallMu.Unlock()
+			}
+		}
+	}()
+}
+
+func recentStall(window time.Duration) time.Duration {
+	stallMu.Lock()
+	defer stallMu.Unlock()
+	var sum time.Duration
+	for i := len(stallLog) - 1; i >= 0 && time.Since(stallLog[i].at) <= window; i-- {
+		sum += stallLog[i].d
+	}
+	return sum
+}
+
+func deadlinePassed(t time.Time) bool {
+	if !time.Now().After(t) {
+		return false
+	}
+	time.Sleep(15 * time.Millisecond) // (a hold-up that has just ended is accounted for by the monitor only now)
+	return time.Now().After(t.Add(3 * recentStall(2*time.Minute)))
 }
 
 func TestMain(m *testing.M) {
 	quietLogger()
+	startStallMonitor()
 	if os.Getenv("VERIF_CHILD") != "" {
 		childMain()
 		return
